@@ -398,7 +398,7 @@ func init() {
 		},
 		Batches:    func(t string) int { return pick(t, 1, 16) },
 		Floor:      func(t string) int { return pick(t, 2000, 100000) },
-		TimeoutSec: func(t string) int { return pick(t, 300, 1800) },
+		TimeoutSec: func(t string) int { return pick(t, 120, 1800) },
 		Child:      c12Child,
 	})
 }
